@@ -446,6 +446,45 @@ def run_provider(ctx, provider, suspects, failures):
     try: db.disconnect()
     except Exception: pass
 
+def ast_grid(ctx, suspects, failures):
+    """exhaustive grid: the REAL STRING_SLICE output (recording builder) for every (kind, kind) x start x stop x string,
+    evaluated by the Lean dialect evaluator and compared with Python.  Every mismatch must fall outside the proved guards."""
+    if not ctx.driver.ok: return
+    N = ctx.scale(4, 8); B = ctx.scale(5, 9)
+    R = [None] + list(range(-B, B + 1))
+    strings = ['abcdefghij'[:n] for n in range(N)] + ['é', 'aé中']
+    reqs, meta = [], []
+    for d in DIALECTS:
+        rb = RecBuilder(d)
+        for ka, kb in itertools.product('ce', 'ce'):
+            for i, j in itertools.product(R, R):
+                if (i is None and ka == 'e') or (j is None and kb == 'e'): continue
+                st = None if i is None else (['VALUE', i] if ka == 'c' else ['COLUMN', 'e.k'])
+                sp = None if j is None else (['VALUE', j] if kb == 'c' else ['COLUMN', 'e.m'])
+                sql = norm(SQLBuilder.STRING_SLICE(rb, ['COLUMN', 'e.name'], st, sp))
+                for s in strings:
+                    reqs.append({'op': 'eval', 'dialect': d, 'ast': sql, 'cols': {'e.name': None if (d == 'Oracle' and s == '') else s, 'e.k': i, 'e.m': j}})
+                    meta.append((d, ka, kb, s, i, j))
+    outs = ctx.driver('C25', reqs)
+    for (d, ka, kb, s, i, j), o in zip(meta, outs):
+        py = s[i:j]
+        exp = ('ok', None if (d == 'Oracle' and py == '') else py)
+        got = sval_out(o)
+        a_cls = ('o',) if i is None else ((ka,)); b_cls = ('o',) if j is None else ((kb,))
+        cls = guard_class(d, s, a_cls, b_cls, i, j)
+        ctx.case(['grid', d, ka, kb, s, i, j], kind='oracle:grid:' + d)
+        if got != exp:
+            if cls is None:
+                failures.append(dict(sentinel=False, provider={v: k for k, v in PROVIDERS.items()}[d], src='STRING_SLICE(%s, %r, %r)' % (d, i if ka == 'c' else 'expr=%r' % i, j if kb == 'c' else 'expr=%r' % j),
+                                     env={}, s=s, i=i, j=j, observed=list(got), expected=py, shape=('grid-' + ka, kb)))
+            else:
+                suspects.add(ctx, cls, dict(query='STRING_SLICE on ' + d, s=s, start=i, stop=j, sql_result=got[1] if got[0] == 'ok' else 'ERROR ' + str(got[1]), python=py))
+                ctx.count('grid:outside-guard:mismatch:' + d)
+        elif cls is not None:
+            ctx.count('grid:outside-guard:still-equal:' + d)     # the guards are sufficient, not necessary (e.g. both sides empty)
+        else:
+            ctx.count('grid:inside-guard:equal:' + d)
+
 def recv_ast(recv):
     spec = recv[1]
     if 'const' in spec: return ['VALUE', spec['const']]
@@ -495,7 +534,7 @@ def report_failures(ctx, failures):
     groups = {}
     for f in other:
         groups.setdefault((f['provider'],) + tuple(f['shape']), []).append(f)
-    for g, fs in sorted(groups.items()):
+    for g, fs in sorted(groups.items(), key=lambda kv: (kv[0][0] != 'sqlite', kv[0])):     # failures on the real backend first
         f = min(fs, key=lambda f: (len(f['s']), abs(f['i'] or 0) + abs(f['j'] or 0), f['src']))
         what = ('real SQLite returns something else than Python for a string %s' if f['provider'] == 'sqlite'
                 else 'the SQL emitted for a string %%s computes something else than Python under the documented %s substr semantics (Lean evaluator)' % PROVIDERS[f['provider']]) \
@@ -510,6 +549,7 @@ def run(ctx):
     primitives_tie(ctx)
     replay_known(ctx)
     suspects = Suspects(); failures = []
+    ast_grid(ctx, suspects, failures)
     for provider in ['sqlite', 'postgres', 'mysql', 'oracle']:
         run_provider(ctx, provider, suspects, failures)
     report_failures(ctx, failures)
